@@ -202,7 +202,7 @@ def value_for(r, ref, req, long_strings=0.0):
 INVALID_KINDS_R = ("unknown_tag", "unknown_member", "index_oob", "count_oob", "count_absurd", "index_malformed",
                    "not_a_tag")
 INVALID_KINDS_W = ("unknown_tag", "unknown_member", "index_oob", "count_oob", "unencodable", "too_short",
-                   "misaligned_bool", "count_absurd", "index_malformed", "not_a_tag")
+                   "misaligned_bool", "count_absurd", "index_malformed", "not_a_tag", "missing_member")
 
 
 def gen_invalid(r, ref, for_write):
@@ -268,6 +268,18 @@ def gen_invalid(r, ref, for_write):
             idx[r.randrange(len(dims))] = bad
             v = gen_value(r, ref, t["type"]) if for_write and t["type"] in ATOMIC_BY_NAME else (1 if for_write else None)
             return pre + t["name"] + "[" + ",".join(idx) + "]", v, kind
+        if kind == "missing_member":
+            # a structure value that lacks one of the visible non-BOOL members: there is nothing to write for it
+            if t["type"] in ATOMIC_BY_NAME or ref.types[t["type"]].get("string_cap") is not None or dims:
+                continue
+            td = ref.types[t["type"]]
+            cands = [m["name"] for m in td["members"] if not m["hidden"] and m["name"]
+                     and not (m["type"] == "BOOL" and m.get("bit") is not None)]
+            if not cands:
+                continue
+            v = gen_value(r, ref, t["type"])
+            v.pop(r.choice(cands))
+            return pre + t["name"], v, kind
         if kind == "unencodable":
             if t["type"] not in INT_RANGES or dims:
                 continue
